@@ -1,5 +1,5 @@
 """C04 - one label per input row; unlabeled margin is exactly W-1 points."""
-from . import _common
+from . import _common, _metrics
 
 LEVEL = "model_checking"
 
@@ -9,4 +9,5 @@ def run(tier):
         "C04", tier, LEVEL, models=(),
         need=('odd_W','multi_series','series_of_exactly_W_rows','W1','equal_length_series_with_several_labels'),
         rule="""every completed run of both front ends: per-series label lists, margins, K, W, MRF shapes as integers checked by TLC against StackOps (Front/Back/Strip); non-trivial = distinct (W parity, number of series, N) combinations with W>1""",
+        extra=lambda rep, trs, tier: _metrics.big_family(rep, tier, {"C04"}),
         nontrivial=lambda t: (t['hdr']['W']%2, len(t['hdr']['lens']), t['hdr']['N'], t['hdr']['W']) if t['hdr']['W']>1 else None)
